@@ -179,6 +179,10 @@ func handPolicies() []*PolicySpec {
 		{Name: "patterns", Ops: []Op{{Kind: "elementsmatching", Re: `^custom-`}, {Kind: "attrs", Names: []string{"id"}, Scope: "M", ScopeRe: `^custom-`},
 			{Kind: "attrs", NoAttrs: true, Scope: "M", ScopeRe: `^[a-z]+-x$`}, {Kind: "attrs", Names: []string{"class"}, Scope: "E", ScopeEls: []string{"custom-y", "b"}},
 			{Kind: "addspaces", B: true}}},
+		// overlapping element patterns with different attributes: custom-x matches both, custom-y and a-x one each
+		{Name: "two-patterns", Ops: []Op{{Kind: "attrs", Names: []string{"id", "lang"}, Scope: "M", ScopeRe: `^custom-`},
+			{Kind: "attrs", Names: []string{"title", "class"}, Scope: "M", ScopeRe: `^[a-z]+-x$`}, {Kind: "attrs", Names: []string{"dir"}, Scope: "M", ScopeRe: `^(b|i)$`},
+			{Kind: "elements", Names: []string{"p"}}}},
 		{Name: "styles", Ops: []Op{{Kind: "elements", Names: []string{"p", "span", "div", "b"}}, {Kind: "styles", Names: []string{"color", "width", "text-align", "background"}, Scope: "G"},
 			{Kind: "styles", Names: []string{"font-family"}, Scope: "E", ScopeEls: []string{"p"}}, {Kind: "styles", Names: []string{"float"}, Enum: []string{"left", "right"}, Scope: "M", ScopeRe: `^(b|i)$`}}},
 		{Name: "rawtext", Ops: []Op{{Kind: "elements", Names: []string{"iframe", "noscript", "xmp", "textarea", "title", "plaintext", "b"}}, {Kind: "comments"}}},
